@@ -15,6 +15,7 @@ import AdaptixProofs.Lemmas.Quote
 import AdaptixProofs.Lemmas.QuoteNames
 import AdaptixProofs.Lemmas.QuoteSkeleton
 import AdaptixProofs.Lemmas.QuoteCtorCall
+import AdaptixProofs.Lemmas.QuoteBroach
 
 namespace Adaptix.Gen.C19
 
@@ -1021,6 +1022,221 @@ example : parseCall pyKeywords demoNfkc
 example : canBeKeywordArgName (fun c => isIdStart c) (fun c => isIdCont c) pyKeywords demoNfkc (codes "class") = false := by decide
 example : canBeKeywordArgName (fun c => isIdStart c) (fun c => isIdCont c) pyKeywords demoNfkc [0xFF43, 108] = false := by decide
 example : canBeKeywordArgName (fun c => isIdStart c) (fun c => isIdCont c) pyKeywords demoNfkc (codes "data") = true := by decide
+
+/-! ## 6. names the converter generator invents (`constant_<n>`, `func_<n>`, `accessor_<n>`) vs names the user chose
+
+  The body of a generated coercer refers to objects by name: the destination constructor and every linked function
+  under (the sanitised form of) its own `__name__` — arbitrary user text —, values without literal form, callables
+  without `__name__` and custom accessors under a numbered name the generator makes up.  Nothing stops a user function
+  or model from being CALLED `constant_0`, `func_1`, `constant[0]` (sanitised: `constant_0`) …: the numbered name is
+  therefore only a basis for `register_mangled`, exactly like a user name.  The theorems below are about ANY sequence
+  of requests (`Reg`), i.e. any broaching plan, with arbitrary strings as user names and as prefixes. -/
+
+/-- **`register_next_id` always succeeds**, whatever the namespace already contains — in particular when the numbered
+    name itself is already bound to a user object. -/
+theorem register_next_id_total (idCont : Nat → Bool) (builtins : List Str) (st : GenSt) (pre : Str) (obj : Nat) :
+    ∀ fuel, (st.ns.blockers builtins).length + 1 ≤ fuel →
+      (registerNextId idCont pyKeywords builtins st pre obj fuel).isSome = true :=
+  fun fuel h => regStep_total idCont pyKeywords builtins st (.nextId pre obj) fuel h
+
+/-- **… and hands out a free identifier bound to this object**: the name is not a parameter / the function's own name,
+    not a variable, outer constant or builtin, it was unbound or bound to the identical object, it is bound to `obj`
+    afterwards, every older binding (e.g. of a user function called `constant_0`) is untouched, the name is
+    identifier-shaped and not a keyword — for every prefix text. -/
+theorem register_next_id_fresh (idCont : Nat → Bool) (hu : idCont 95 = true)
+    (hd : ∀ c, (48 ≤ c && c ≤ 57) = true → idCont c = true)
+    (builtins : List Str) (st : GenSt) (pre : Str) (obj fuel : Nat) (name : Str) (st' : GenSt)
+    (h : registerNextId idCont pyKeywords builtins st pre obj fuel = some (name, st')) :
+    FreshFor builtins st.ns st'.ns name obj
+    ∧ (∀ n o, lookupName st.ns.constants n = some o → lookupName st'.ns.constants n = some o)
+    ∧ IdentShaped idCont name ∧ name ∉ pyKeywords := by
+  obtain ⟨raw, hr⟩ := regStep_is_mangled idCont pyKeywords builtins st (.nextId pre obj) fuel name st' h
+  have hid := mangled_name_is_identifier idCont hu hd builtins st.ns raw _ fuel name st'.ns hr
+  unfold registerMangledRaw at hr
+  exact ⟨register_mangled_fresh builtins st.ns _ _ fuel name st'.ns hr,
+    (register_mangled_frame builtins st.ns _ _ fuel name st'.ns hr).2, hid.1, hid.2⟩
+
+/-- **Name allocation of a whole generated function never fails**: for every list of requests — user-named objects with
+    arbitrary text as name, numbered helpers with any prefix, in any order and number — every request is served
+    (fuel above the number of names that can be refused at the end: the real loop is unbounded). -/
+theorem alloc_names_total (idCont : Nat → Bool) (builtins : List Str) :
+    ∀ (regs : List Reg) (st : GenSt) (fuel : Nat),
+      (st.ns.blockers builtins).length + regs.length + 1 ≤ fuel →
+      (allocNames idCont pyKeywords builtins regs st fuel).isSome = true := by
+  intro regs
+  induction regs with
+  | nil => intro st fuel _; rfl
+  | cons r rs ih =>
+    intro st fuel hfuel
+    have h1 := regStep_total idCont pyKeywords builtins st r fuel (by simp at hfuel; omega)
+    obtain ⟨⟨n, st1⟩, hs⟩ := Option.isSome_iff_exists.mp h1
+    obtain ⟨raw, hr⟩ := regStep_is_mangled idCont pyKeywords builtins st r fuel n st1 hs
+    unfold registerMangledRaw at hr
+    have hlen := (register_mangled_frame builtins st.ns _ _ fuel n st1.ns hr).1.blockers_length builtins
+    have h2 := ih st1 fuel (by simp at hfuel; omega)
+    obtain ⟨⟨ns, st2⟩, hs2⟩ := Option.isSome_iff_exists.mp h2
+    simp [allocNames, hs, hs2]
+
+/-- **Every request gets a usable name bound to ITS object, and keeps it**: after the whole allocation, for the
+    `i`-th request and the `i`-th name handed out: the name is identifier-shaped, not a keyword, not a parameter nor
+    the function's own name, not an outer constant, not a builtin, and in the FINAL namespace it is bound to the object
+    of that request — no later request (a numbered helper after a user function called `constant_0`, a user function
+    called `func_0` after an anonymous callable, two functions with the same name …) takes it over. -/
+theorem alloc_names_sound (idCont : Nat → Bool) (hu : idCont 95 = true)
+    (hd : ∀ c, (48 ≤ c && c ≤ 57) = true → idCont c = true) (builtins : List Str) :
+    ∀ (regs : List Reg) (st : GenSt) (fuel : Nat) (names : List Str) (st' : GenSt),
+      allocNames idCont pyKeywords builtins regs st fuel = some (names, st') →
+      names.length = regs.length
+      ∧ st'.ns.occupied = st.ns.occupied ∧ st'.ns.outer = st.ns.outer ∧ st'.ns.allowBuiltins = st.ns.allowBuiltins
+      ∧ (∀ n o, lookupName st.ns.constants n = some o → lookupName st'.ns.constants n = some o)
+      ∧ ∀ p ∈ names.zip regs,
+          IdentShaped idCont p.1 ∧ p.1 ∉ pyKeywords ∧ p.1 ∉ st.ns.occupied ∧ (∀ o, (p.1, o) ∉ st.ns.outer)
+          ∧ (st.ns.allowBuiltins = false → p.1 ∉ builtins)
+          ∧ lookupName st'.ns.constants p.1 = some p.2.obj := by
+  intro regs
+  induction regs with
+  | nil =>
+    intro st fuel names st' h
+    simp [allocNames] at h
+    obtain ⟨h1, h2⟩ := h
+    subst h1; subst h2
+    simp
+  | cons r rs ih =>
+    intro st fuel names st' h
+    unfold allocNames at h
+    split at h
+    · simp at h
+    · rename_i n st1 hs
+      split at h
+      · simp at h
+      · rename_i ns st2 hs2
+        simp only [Option.some.injEq, Prod.mk.injEq] at h
+        obtain ⟨hn, hst⟩ := h
+        subst hn; subst hst
+        obtain ⟨raw, hr⟩ := regStep_is_mangled idCont pyKeywords builtins st r fuel n st1 hs
+        have hid := mangled_name_is_identifier idCont hu hd builtins st.ns raw _ fuel n st1.ns hr
+        unfold registerMangledRaw at hr
+        have hfresh := register_mangled_fresh builtins st.ns _ _ fuel n st1.ns hr
+        obtain ⟨hframe, hkeep⟩ := register_mangled_frame builtins st.ns _ _ fuel n st1.ns hr
+        obtain ⟨hout, hocc, _, hallow, _⟩ := hframe
+        obtain ⟨hlen, hocc2, hout2, hallow2, hkeep2, hall⟩ := ih st1 fuel ns st2 hs2
+        refine ⟨by simp [hlen], by rw [hocc2, hocc], by rw [hout2, hout], by rw [hallow2, hallow],
+          fun n' o hb => hkeep2 n' o (hkeep n' o hb), ?_⟩
+        intro p hp
+        simp only [List.zip_cons_cons, List.mem_cons] at hp
+        rcases hp with hp | hp
+        · subst hp
+          exact ⟨hid.1, hid.2, hfresh.1, hfresh.2.2.1, hfresh.2.2.2.1, hkeep2 _ _ hfresh.2.2.2.2.2⟩
+        · obtain ⟨a, b, c, d, e, f⟩ := hall p hp
+          exact ⟨a, b, by rw [← hocc]; exact c, by rw [← hout]; exact d, by rw [← hallow]; exact e, f⟩
+
+/-- **Two requests for different objects never share a name** (and so no reference in the generated body can reach
+    the wrong object), whatever the user called his functions and models. -/
+theorem alloc_names_injective (idCont : Nat → Bool) (hu : idCont 95 = true)
+    (hd : ∀ c, (48 ≤ c && c ≤ 57) = true → idCont c = true) (builtins : List Str)
+    (regs : List Reg) (st : GenSt) (fuel : Nat) (names : List Str) (st' : GenSt)
+    (h : allocNames idCont pyKeywords builtins regs st fuel = some (names, st')) :
+    ∀ p ∈ names.zip regs, ∀ q ∈ names.zip regs, p.1 = q.1 → p.2.obj = q.2.obj := by
+  intro p hp q hq hpq
+  have hall := (alloc_names_sound idCont hu hd builtins regs st fuel names st' h).2.2.2.2.2
+  have h1 := (hall p hp).2.2.2.2.2
+  have h2 := (hall q hq).2.2.2.2.2
+  rw [hpq, h2] at h1
+  exact (Option.some.inj h1).symm
+
+/-- **Generation of the names of any broaching plan succeeds**: whatever `__name__` the functions and the destination
+    model of the plan carry, whatever parameters / own name / signature variable the function has. -/
+theorem plan_names_total (idCont : Nat → Bool) (builtins : List Str) (occupied : List Str) (outer : List (Str × Nat))
+    (plan : Plan) (fuel : Nat)
+    (hfuel : occupied.length + outer.length + builtins.length + (planRegs plan).length + 1 ≤ fuel) :
+    (planNames idCont pyKeywords builtins occupied outer plan fuel).isSome = true := by
+  unfold planNames
+  apply alloc_names_total
+  simp [Namespace.blockers]
+  omega
+
+/-- the prefixes `register_next_id` is called with in the tree under test are the ones `planRegs` knows -/
+theorem next_id_prefixes_modelled : nextIdPrefixes = modelledNextIdPrefixes := by decide
+
+/-- in the tree under test every `return` of `GenState.register_next_id` is `self.register_mangled(<numbered name>, obj)`
+    (translator fact; the behaviour itself is compared by the `namespace` / `broach` correspondences) -/
+theorem next_id_goes_through_mangling : nextIdThroughMangling = true := by decide
+
+/-- `D(constant_0(data), <object>, <partial>(), func_0())` inside `coerce_S_to_D(data, ctx)`: the destination model,
+    a linked function the user called `constant[0]` (sanitised: `constant_0`), a value without literal form, a
+    callable without `__name__`, a factory the user called `func_0` -/
+def demoPlan : Plan :=
+  .func false false (some [68]) 1
+    [.accessor none (.param [100, 97, 116, 97]),
+     .func false false (some [99, 111, 110, 115, 116, 97, 110, 116, 91, 48, 93]) 2 [.param [100, 97, 116, 97]],
+     .const false 3,
+     .func false false none 4 [],
+     .func false false (some [102, 117, 110, 99, 95, 48]) 5 []]
+
+/-- **witness**: the hypotheses of `alloc_names_sound` hold for the model's identifier table, allocation for
+    `demoPlan` succeeds, and the names are `D`, `constant_0` (the user function), `constant_0_1` (the numbered helper
+    steps aside), `func_0` (the anonymous callable came first), `func_0_1` (now the user function steps aside);
+    all five are bound to their own objects at the end. -/
+theorem alloc_names_witness :
+    (isIdCont 95 = true ∧ ∀ c, (48 ≤ c && c ≤ 57) = true → isIdCont c = true)
+    ∧ ∃ st', planNames (fun c => isIdCont c) pyKeywords builtinNames
+          [[100, 97, 116, 97], [99, 116, 120]] [([95, 115], 0)] demoPlan 400
+        = some ([[68], [99, 111, 110, 115, 116, 97, 110, 116, 95, 48], [99, 111, 110, 115, 116, 97, 110, 116, 95, 48, 95, 49],
+                 [102, 117, 110, 99, 95, 48], [102, 117, 110, 99, 95, 48, 95, 49]], st')
+      ∧ lookupName st'.ns.constants [99, 111, 110, 115, 116, 97, 110, 116, 95, 48] = some 2
+      ∧ lookupName st'.ns.constants [99, 111, 110, 115, 116, 97, 110, 116, 95, 48, 95, 49] = some 3 := by
+  have hd : ∀ c, (48 ≤ c && c ≤ 57) = true → isIdCont c = true := by
+    intro c hc
+    simp only [isIdCont, isDigit, Bool.or_eq_true]
+    exact Or.inr hc
+  refine ⟨⟨by decide, hd⟩, ?_⟩
+  have hnames : (planNames (fun c => isIdCont c) pyKeywords builtinNames
+      [[100, 97, 116, 97], [99, 116, 120]] [([95, 115], 0)] demoPlan 400).map (·.1)
+      = some [[68], [99, 111, 110, 115, 116, 97, 110, 116, 95, 48], [99, 111, 110, 115, 116, 97, 110, 116, 95, 48, 95, 49],
+              [102, 117, 110, 99, 95, 48], [102, 117, 110, 99, 95, 48, 95, 49]] := by decide +kernel
+  cases hr : planNames (fun c => isIdCont c) pyKeywords builtinNames
+      [[100, 97, 116, 97], [99, 116, 120]] [([95, 115], 0)] demoPlan 400 with
+  | none => rw [hr] at hnames; simp at hnames
+  | some r =>
+    obtain ⟨names, st'⟩ := r
+    rw [hr] at hnames
+    simp only [Option.map_some, Option.some.injEq] at hnames
+    subst hnames
+    refine ⟨st', rfl, ?_, ?_⟩
+    · have hall := (alloc_names_sound (fun c => isIdCont c) (by decide) hd builtinNames _ _ _ _ _ hr).2.2.2.2.2
+      exact (hall ([99, 111, 110, 115, 116, 97, 110, 116, 95, 48],
+        Reg.mangled [99, 111, 110, 115, 116, 97, 110, 116, 91, 48, 93] 2) (by decide)).2.2.2.2.2
+    · have hall := (alloc_names_sound (fun c => isIdCont c) (by decide) hd builtinNames _ _ _ _ _ hr).2.2.2.2.2
+      exact (hall ([99, 111, 110, 115, 116, 97, 110, 116, 95, 48, 95, 49], Reg.nextId constantPrefix 3) (by decide)).2.2.2.2.2
+
+/-- NOT the code — the numbered name stored with `add_constant` (which raises `KeyError` when the name is refused)
+    instead of going through `register_mangled`: "numbered names are unique by construction" -/
+def registerNextIdStrict (builtins : List Str) (st : GenSt) (pre : Str) (obj : Nat) : Option (Str × GenSt) :=
+  let name := nextIdBase pre (counterOf st.counters pre)
+  match st.ns.tryAddConstant builtins name obj with
+  | (true, ns') => some (name, { ns := ns', counters := bumpCounter st.counters pre })
+  | (false, _) => none
+
+/-- … is not total: after a user function called `constant[0]` (registered as `constant_0`) the first value without
+    literal form has no name, while the real `register_next_id` steps aside to `constant_0_1` -/
+example : (regStep (fun c => isIdCont c) pyKeywords builtinNames { ns := {} }
+      (.mangled [99, 111, 110, 115, 116, 97, 110, 116, 91, 48, 93] 2) 5).map (fun r => (r.1, r.2.ns.constants))
+    = some ([99, 111, 110, 115, 116, 97, 110, 116, 95, 48], [([99, 111, 110, 115, 116, 97, 110, 116, 95, 48], 2)]) := by
+  decide +kernel
+example : (registerNextIdStrict builtinNames { ns := { constants := [([99, 111, 110, 115, 116, 97, 110, 116, 95, 48], 2)] } }
+      constantPrefix 3).isNone = true := by decide +kernel
+example : (registerNextId (fun c => isIdCont c) pyKeywords builtinNames
+      { ns := { constants := [([99, 111, 110, 115, 116, 97, 110, 116, 95, 48], 2)] } } constantPrefix 3 5).map (·.1)
+    = some [99, 111, 110, 115, 116, 97, 110, 116, 95, 48, 95, 49] := by decide +kernel
+
+example : planRegs demoPlan = [.mangled [68] 1, .mangled [99, 111, 110, 115, 116, 97, 110, 116, 91, 48, 93] 2,
+    .nextId constantPrefix 3, .nextId funcPrefix 4, .mangled [102, 117, 110, 99, 95, 48] 5] := by decide
+-- the `as_is_stub` shape is transparent, a literal value and a literal factory ask for nothing, a custom accessor
+-- asks after its target
+example : planRegs (.func true false (some [120]) 1 [.accessor (some 9) (.const false 3), .param [99, 116, 120]])
+    = [.nextId constantPrefix 3, .nextId accessorPrefix 9] := by decide
+example : planRegs (.func false false none 1 [.const true 3, .func false true (some [108, 105, 115, 116]) 4 []])
+    = [.nextId funcPrefix 1] := by decide
 
 /-! ## non-vacuity -/
 
